@@ -449,6 +449,64 @@ pub fn run(ctx: &mut Ctx) {
     }
     ctx.sample(json!({"byte": "0x81", "context": "in-comment", "file": String::from_utf8_lossy(&contexts(0x81)[0].1)}));
 
+    // ---- (2b) every pair of bytes with a non-ASCII first byte inside a program: the text the project holds is the
+    // UTF-8 reading when the file is valid UTF-8 and the Windows-1252 reading otherwise (reference decoder: the
+    // WHATWG table typed in below), whatever the two bytes happen to spell in any other encoding
+    {
+        const HIGH: [u32; 32] = [
+            0x20AC, 0x81, 0x201A, 0x0192, 0x201E, 0x2026, 0x2020, 0x2021, 0x02C6, 0x2030, 0x0160, 0x2039, 0x0152, 0x8D, 0x017D, 0x8F, 0x90, 0x2018, 0x2019, 0x201C, 0x201D, 0x2022, 0x2013, 0x2014, 0x02DC,
+            0x2122, 0x0161, 0x203A, 0x0153, 0x9D, 0x017E, 0x0178,
+        ];
+        let reference = |bytes: &[u8]| -> String {
+            match std::str::from_utf8(bytes) {
+                Ok(t) => t.to_string(),
+                Err(_) => bytes.iter().map(|b| if (0x80..0xA0).contains(b) { char::from_u32(HIGH[(*b - 0x80) as usize]).unwrap() } else { *b as char }).collect(),
+            }
+        };
+        let dir = scratch.sub("pairs");
+        let pairs: Vec<(u8, u8)> = (0x80u16..=0xFF).flat_map(|a| (0u16..=0xFF).map(move |b| (a as u8, b as u8))).collect();
+        let res: Vec<Option<String>> = pairs
+            .par_iter()
+            .map(|(a, b)| {
+                let mut bytes = b"PROGRAM P VAR n : INT ; END_VAR (* ".to_vec();
+                bytes.push(*a);
+                bytes.push(*b);
+                bytes.extend_from_slice(b"hler *) m := 1 ; END_PROGRAM\n");
+                let path = dir.join(format!("p{:02x}{:02x}.st", a, b));
+                std::fs::write(&path, &bytes).unwrap();
+                let fid = FileId::from_path(&path);
+                let r = catch(|| {
+                    let mut p = FileBackedProject::new();
+                    match p.push(fid.clone()) {
+                        Err(d) => Err(format!("unreadable: {}", d.code)),
+                        Ok(_) => Ok(p.get(&fid).map(|s| s.as_string().to_string()).unwrap_or_default()),
+                    }
+                });
+                let _ = std::fs::remove_file(&path);
+                let want = reference(&bytes);
+                match r {
+                    Err(p) => Some(format!("reading the file panicked at {}", p.loc)),
+                    Ok(Err(e)) => Some(e),
+                    Ok(Ok(got)) if got == want => None,
+                    Ok(Ok(got)) => {
+                        let at = got.chars().zip(want.chars()).position(|(x, y)| x != y).unwrap_or(0);
+                        Some(format!("decoded {:?}, expected {:?}", got.chars().skip(at).take(4).collect::<String>(), want.chars().skip(at).take(4).collect::<String>()))
+                    }
+                }
+            })
+            .collect();
+        for ((a, b), r) in pairs.iter().zip(res.iter()) {
+            ctx.evaluations += 1;
+            ctx.transitions += 1;
+            if let Some(m) = r {
+                let class = if *b < 0x80 { "non-ascii-byte-then-ascii" } else { "two-non-ascii-bytes" };
+                ctx.fail(&format!("byte-pair-decoded-wrongly/{}/first-byte-0x{:x}0-0x{:x}f", class, a >> 4, a >> 4), &format!("bytes {:02x} {:02x} inside a comment: {}", a, b, m), json!({"mode":"byte-pair","a":a,"b":b}));
+            }
+        }
+        ctx.outcome_n("byte pairs decoded as the reference decoder does", res.iter().filter(|r| r.is_none()).count() as u64);
+        ctx.bounds.insert("byte_pairs".into(), json!("all 32,768 pairs (first byte 0x80-0xFF, second byte 0x00-0xFF) inside a comment of a program, decoded text compared with the reference decoder"));
+    }
+
     // ---- (3) all short files
     let mut short: Vec<Vec<u8>> = (0u16..=255).map(|b| vec![b as u8]).collect();
     short.push(vec![]);
